@@ -2,7 +2,10 @@
 PROP = "C11"
 LEVEL = "other"
 EXPLANATION = 'bounded stand-in: message grammar x three renderings, exhaustive style codes, line methods, indent scope nestings; newline/branch obligations of the write methods are proved under the shared I/O contracts'
-TARGETS = []
+from . import io_contracts as ioc
+TARGETS = [ioc.M_OUT + ":Output." + m for m in ("write", "write_line", "write_raw", "write_line_raw")]
+TARGETS += [ioc.M_IO + ":IO." + m for m in ("write_line", "write_line_raw", "error_line", "error_line_raw")]
+TARGETS += [ioc.M_SEC + ":SectionOutput.write", {"qual": ioc.M_OUT + ":Output.write_line", "self_cls": "SectionOutput"}]
 LEMMAS = []
 try:
     from .C11_bounded import bounded, BOUNDED_RULE  # noqa: F401
